@@ -475,17 +475,23 @@ impl<'a, 'tcx> D<'a, 'tcx> {
                 };
                 format!("{{\"k\":\"ret\",\"v\":{},{}}}", v, common)
             }
-            Struct(qp, fs, _) => {
+            Struct(qp, fs, tail) => {
                 let res = self.tc.qpath_res(qp, e.hir_id);
                 let mut v = Vec::new();
                 for f in fs.iter() {
                     let x = self.expr(f.expr);
                     v.push(format!("[{},{}]", esc(f.ident.as_str()), x));
                 }
+                // functional record update `S { f: e, ..base }`: the base expression supplies the other fields
+                let base = match tail {
+                    hir::StructTailExpr::Base(b) => format!(",\"base\":{}", self.expr(b)),
+                    _ => String::new(),
+                };
                 format!(
-                    "{{\"k\":\"struct\",\"path\":{},\"fs\":{},{}}}",
+                    "{{\"k\":\"struct\",\"path\":{},\"fs\":{}{},{}}}",
                     esc(&self.res_path(res)),
                     arr(v),
+                    base,
                     common
                 )
             }
